@@ -132,7 +132,10 @@ def write(sc, d, warm=None, out_name=None, shift=0):
     sg = -1.0 if sc["rev"] else 1.0
     for k, members in enumerate(files):
         mem = members[::-1] if sc["rev"] else members
-        times = [sim2time(sc, sc["fsteps"][m]) + shift for m in mem]
+        # "frame_off" seconds (0 <= off < DT) after its step in simulation order: the frame still belongs to that step
+        foff = (-1 if sc["rev"] else 1) * int(sc.get("frame_off", 0))
+        # (a first frame exactly at the start stays there: the forcing must cover the start)
+        times = [sim2time(sc, sc["fsteps"][m]) + shift + (0 if (m == 0 and sc["fsteps"][0] == 0) else foff) for m in mem]
         idx = {t: m for t, m in zip(times, mem)}
         scal = {}
         if sc["scalars"]:
@@ -329,3 +332,27 @@ def brief(sc):
     keep = ("seed", "rev", "nsteps", "start", "fsteps", "cuts", "scheme", "layout", "period", "numrec", "continuous", "freq",
             "rows", "kill", "subgrid", "N", "scalars", "vertadv", "age", "pvars")
     return {k: sc[k] for k in keep} | dict(arrays="harness.scen.gen(seed, …) regenerates grid, mask, bathymetry and forcing fields")
+
+
+def e2e_stream(ctx, stream, cases, theorem, monitor=None, kind="failing-input"):
+    """Run whole simulations of the scenarios on the real code and through the model (`Sim.run`),
+    compare the output files; `monitor(sc, real)` may add statements checked on the real output alone."""
+    from harness.common import driver, pmap
+    got = pmap(run_real, cases)
+    want = driver([request(sc) for sc in cases])
+    for sc, g, w in zip(cases, got, want):
+        ctx.case(stream, [sc["seed"], sc["scheme"], sc["layout"], sc["rev"], sc.get("frame_off", 0), str(sc["rows"])[:80]], sample=brief(sc), nontrivial=True)
+        if "error" in w:
+            if g["status"] == "ok":
+                ctx.violation("tie-broken", stream, brief(sc), dict(model=w, implementation="ok"))
+            continue
+        if g["status"] != "ok":
+            ctx.violation(kind, stream, brief(sc), dict(status=g["status"], theorem=theorem), tags=dict(first="status")); continue
+        bad = monitor(sc, g) if monitor else []
+        if bad:
+            ctx.violation(kind, stream, brief(sc), dict(broken=bad[:4], theorem=theorem), tags=dict(first=bad[0][:20])); continue
+        diffs = compare_files(sc, g["files"], w["files"])
+        if diffs:
+            ctx.violation(kind, stream, brief(sc),
+                          dict(differences=[dict(what=a, implementation=str(x)[:300], model=str(y)[:300]) for a, x, y in diffs[:3]], theorem=theorem),
+                          tags=dict(first=diffs[0][0].split(" ")[-1]))
